@@ -45,7 +45,9 @@ CHECKS = {
             'types, Vm ratios, Euler/RK4, isothermal/heating/cooling/multi-segment schedules, infinite/no precipitate diffusion, 1 or 3 solve '
             'calls, shapes, PBM grids, adaptive on/off, preloaded PSD, default step growth) is a state on which the solute balance is '
             'evaluated from the distribution captured for that step, with molar volumes, Clemm-Fisher volume factors and precipitate '
-            'compositions taken from the configuration/backend, not from the model; tolerance 1e-9 (1e-5 for the accumulated no-diffusion mode).',
+            'compositions taken from the configuration/backend, not from the model; tolerance 1e-9 relative, also in the no-diffusion mode, where '
+            'the solute of particles removed by the end-of-step clean-up is accounted for explicitly (that loss itself is a recorded known finding). '
+            'A real-backend stage (Al-Zr on pycalphad, 2 quick / 6 thorough runs) binds the analytic environments to the real call protocol.',
             'Analytic dilute-ideal backends stand in for pycalphad (mc/synth_thermo.py); the monitor wraps three private methods on the '
             'instance it created (_calcMassBalance, _appendArrays, _calcNucleationRate) and fails loudly if they vanish; horizon 8000 steps.',
             '2/C01'),
@@ -135,7 +137,8 @@ CHECKS = {
     'C03': ('model_checking',
             'configuration products with per-run well-formedness oracle; deviation-bounded enumeration of backend fault placements (fault_enumeration within model checking)',
             'config: full products of configurations (the C01 products, every single step-size constraint switched off and all off, two '
-            'solver step-fraction settings, temperatures inside/on/outside the two-phase region, jumps up and down, all site types, fixed '
+            'solver step-fraction settings, temperatures inside/on/outside the two-phase region, jumps up and down, the second impingement function, '
+            'aspect ratio from elastic strain energy, distributions loaded above the solvus, two/six real Al-Zr runs, all site types, fixed '
             'and adaptive grids with PSD recording) - every run must terminate at exactly the requested time with strictly increasing '
             'time stamps, equal-length finite histories, non-negative PSDs at every step, fractions/compositions in range. faults: for '
             'each backend method every placement of 0 and 1 (thorough: also 2) documented "no result" answers among the first K=12 '
